@@ -1,15 +1,67 @@
 //! C19: num_traits FromPrimitive / ToPrimitive / AsPrimitive (feature numtraits), called through the traits.
+//!
+//! Requests `op cfg [dbg|rel] args…`: a request tagged with a build mode is answered only by the
+//! binary built in that mode (the other one answers `skip`), so that the model can be run with the
+//! matching `dbg` flag.  Untagged requests are answered by both binaries.
+//!
+//! Every `as_*` operation ("AsPrimitive::as_ equals the As cast") evaluates THREE expressions on the
+//! same operand — `num_traits::AsPrimitive::as_`, `bnum::cast::CastFrom::cast_from` and
+//! `bnum::cast::As::as_` — and answers `MISMATCH(as_=..,cast_from=..,As=..)` unless all agree.
+use bnum::cast::{As, CastFrom};
 use bnum_verif_harness::*;
 use num_traits::{AsPrimitive, FromPrimitive, ToPrimitive};
 
+/// the answer of an `as_*` request: the common pattern, or the disagreement
+fn same(r: String, c: String, c2: String) -> String {
+    if r == c && r == c2 { r } else { format!("MISMATCH(as_={},cast_from={},As={})", r, c, c2) }
+}
+fn f32_of(s: &str) -> f32 { f32::from_bits(u32::from_str_radix(s, 16).unwrap()) }
+fn f64_of(s: &str) -> f64 { f64::from_bits(u64::from_str_radix(s, 16).unwrap()) }
+
 macro_rules! prim_ops {
-    ($T:ty, $op:expr, $a:expr; $($p:ident $from:ident $to:ident $as_:literal),*) => {{
+    ($T:ty, $op:expr, $a:expr; $($p:ident $from:ident $to:ident $as_:literal $asfrom:literal),*) => {{
         let a: &[&str] = $a;
         match $op {
             $(
             stringify!($from) => return Some(<$T as FromPrimitive>::$from(<$p as Pat>::from_hex(a[0])).out()),
             stringify!($to) => return Some(<$T as ToPrimitive>::$to(&<$T>::from_hex(a[0])).map(Hx).out()),
-            $as_ => return Some(Hx(<$T as AsPrimitive<$p>>::as_(<$T>::from_hex(a[0]))).out()),
+            $as_ => {
+                let x = <$T>::from_hex(a[0]);
+                return Some(same(Hx(<$T as AsPrimitive<$p>>::as_(x)).out(),
+                                 Hx(<$p as CastFrom<$T>>::cast_from(x)).out(),
+                                 Hx(<$T as As>::as_::<$p>(x)).out()));
+            }
+            $asfrom => {
+                let p = <$p as Pat>::from_hex(a[0]);
+                return Some(same(<$p as AsPrimitive<$T>>::as_(p).out(),
+                                 <$T as CastFrom<$p>>::cast_from(p).out(),
+                                 <$p as As>::as_::<$T>(p).out()));
+            }
+            )*
+            _ => {}
+        }
+    }};
+}
+
+macro_rules! float_ops {
+    ($T:ty, $op:expr, $a:expr; $($f:ident $of:ident $ntfrom:literal $ntto:literal $as_:literal $asfrom:literal $from:ident $to:ident),*) => {{
+        let a: &[&str] = $a;
+        match $op {
+            $(
+            $ntfrom => return Some(<$T as FromPrimitive>::$from($of(a[0])).out()),
+            $ntto => return Some(<$T as ToPrimitive>::$to(&<$T>::from_hex(a[0])).map(|f| format!("{:x}", f.to_bits())).out()),
+            $as_ => {
+                let x = <$T>::from_hex(a[0]);
+                return Some(same(format!("{:x}", <$T as AsPrimitive<$f>>::as_(x).to_bits()),
+                                 format!("{:x}", <$f as CastFrom<$T>>::cast_from(x).to_bits()),
+                                 format!("{:x}", <$T as As>::as_::<$f>(x).to_bits())));
+            }
+            $asfrom => {
+                let p = $of(a[0]);
+                return Some(same(<$f as AsPrimitive<$T>>::as_(p).out(),
+                                 <$T as CastFrom<$f>>::cast_from(p).out(),
+                                 <$f as As>::as_::<$T>(p).out()));
+            }
             )*
             _ => {}
         }
@@ -20,17 +72,28 @@ macro_rules! ops {
     ($T:ty, $op:expr, $a:expr) => {{
         let a: &[&str] = $a;
         prim_ops!($T, $op, a;
-            u8 from_u8 to_u8 "as_u8", u16 from_u16 to_u16 "as_u16", u32 from_u32 to_u32 "as_u32", u64 from_u64 to_u64 "as_u64",
-            u128 from_u128 to_u128 "as_u128", usize from_usize to_usize "as_usize",
-            i8 from_i8 to_i8 "as_i8", i16 from_i16 to_i16 "as_i16", i32 from_i32 to_i32 "as_i32", i64 from_i64 to_i64 "as_i64",
-            i128 from_i128 to_i128 "as_i128", isize from_isize to_isize "as_isize");
+            u8 from_u8 to_u8 "as_u8" "as_from_u8", u16 from_u16 to_u16 "as_u16" "as_from_u16",
+            u32 from_u32 to_u32 "as_u32" "as_from_u32", u64 from_u64 to_u64 "as_u64" "as_from_u64",
+            u128 from_u128 to_u128 "as_u128" "as_from_u128", usize from_usize to_usize "as_usize" "as_from_usize",
+            i8 from_i8 to_i8 "as_i8" "as_from_i8", i16 from_i16 to_i16 "as_i16" "as_from_i16",
+            i32 from_i32 to_i32 "as_i32" "as_from_i32", i64 from_i64 to_i64 "as_i64" "as_from_i64",
+            i128 from_i128 to_i128 "as_i128" "as_from_i128", isize from_isize to_isize "as_isize" "as_from_isize");
+        float_ops!($T, $op, a;
+            f32 f32_of "nt_from_f32" "nt_to_f32" "as_f32" "as_from_f32" from_f32 to_f32,
+            f64 f64_of "nt_from_f64" "nt_to_f64" "as_f64" "as_from_f64" from_f64 to_f64);
         match $op {
-            "nt_from_f32" => Some(<$T as FromPrimitive>::from_f32(f32::from_bits(u32::from_str_radix(a[0], 16).unwrap())).out()),
-            "nt_from_f64" => Some(<$T as FromPrimitive>::from_f64(f64::from_bits(u64::from_str_radix(a[0], 16).unwrap())).out()),
-            "nt_to_f32" => Some(<$T as ToPrimitive>::to_f32(&<$T>::from_hex(a[0])).map(|f| format!("{:x}", f.to_bits())).out()),
-            "nt_to_f64" => Some(<$T as ToPrimitive>::to_f64(&<$T>::from_hex(a[0])).map(|f| format!("{:x}", f.to_bits())).out()),
-            "as_f32" => Some(format!("{:x}", <$T as AsPrimitive<f32>>::as_(<$T>::from_hex(a[0])).to_bits())),
-            "as_f64" => Some(format!("{:x}", <$T as AsPrimitive<f64>>::as_(<$T>::from_hex(a[0])).to_bits())),
+            "as_from_char" => {
+                let c = char::from_u32(u32::from_str_radix(a[0], 16).unwrap()).expect("scalar value");
+                Some(same(<char as AsPrimitive<$T>>::as_(c).out(),
+                          <$T as CastFrom<char>>::cast_from(c).out(),
+                          <char as As>::as_::<$T>(c).out()))
+            }
+            "as_from_bool" => {
+                let b = parse_bool(a[0]);
+                Some(same(<bool as AsPrimitive<$T>>::as_(b).out(),
+                          <$T as CastFrom<bool>>::cast_from(b).out(),
+                          <bool as As>::as_::<$T>(b).out()))
+            }
             _ => None,
         }
     }};
@@ -45,8 +108,73 @@ macro_rules! imp {
     }};
 }
 
+/// `<S as AsPrimitive<D>>::as_` for two bnum types of the same digit type
+/// (`impl AsPrimitive<$BUint<M>> / AsPrimitive<$BInt<M>> for $Int<N>`, src/int/numtraits.rs:166-178)
+fn as_big<S, D>(a: &str) -> String
+where
+    S: Pat + Copy + 'static + AsPrimitive<D>,
+    D: Pat + Copy + 'static + CastFrom<S>,
+{
+    let x = S::from_hex(a);
+    same(<S as AsPrimitive<D>>::as_(x).to_hex(), <D as CastFrom<S>>::cast_from(x).to_hex(), <S as As>::as_::<D>(x).to_hex())
+}
+
+macro_rules! big_dst {
+    ($S:ty, $U:ident, $I:ident, $ds:expr, $m:expr, $a:expr; [$($M:literal),*]) => {
+        match $m {
+            $( $M => Some(if $ds { as_big::<$S, bnum::$I<$M>>($a) } else { as_big::<$S, bnum::$U<$M>>($a) }), )*
+            _ => None,
+        }
+    };
+}
+/// every ordered pair (N, M) of the size list, all four signedness combinations
+macro_rules! big_src {
+    ($U:ident, $I:ident, $ss:expr, $ds:expr, $n:expr, $m:expr, $a:expr; [$($N:literal),*]; $ms:tt) => {
+        match $n {
+            $( $N => if $ss { big_dst!(bnum::$I<$N>, $U, $I, $ds, $m, $a; $ms) } else { big_dst!(bnum::$U<$N>, $U, $I, $ds, $m, $a; $ms) }, )*
+            _ => None,
+        }
+    };
+}
+
+fn cfg_wn(c: &str) -> (u32, usize) {
+    let (w, n) = c.split_once('x').expect("cfg");
+    (w.parse().unwrap(), n.parse().unwrap())
+}
+
+/// `as_big <src cfg> <dst cfg> a`: digit counts per digit type are those of gen/c19.py `BIG_SIZES`
+fn run_as_big(src: &str, dst: &str, a: &str) -> Option<String> {
+    let (ss, sc) = split_cfg(src);
+    let (ds, dc) = split_cfg(dst);
+    let (w, n) = cfg_wn(sc);
+    let (w2, m) = cfg_wn(dc);
+    if w != w2 {
+        return None;
+    }
+    match w {
+        8 => big_src!(BUintD8, BIntD8, ss, ds, n, m, a; [1, 2, 3, 17, 1024]; [1, 2, 3, 17, 1024]),
+        16 => big_src!(BUintD16, BIntD16, ss, ds, n, m, a; [1, 3, 5, 512]; [1, 3, 5, 512]),
+        32 => big_src!(BUintD32, BIntD32, ss, ds, n, m, a; [2, 3, 6, 256]; [2, 3, 6, 256]),
+        64 => big_src!(BUint, BInt, ss, ds, n, m, a; [1, 2, 3, 8, 128]; [1, 2, 3, 8, 128]),
+        _ => None,
+    }
+}
+
 fn main() {
     serve(|op, cfg, args| {
+        // optional build-mode tag
+        let args = match args.first() {
+            Some(&"dbg") | Some(&"rel") => {
+                if !mode_ok(args[0]) {
+                    return Some("skip".into());
+                }
+                &args[1..]
+            }
+            _ => args,
+        };
+        if op == "as_big" {
+            return run_as_big(cfg, args[0], args[1]);
+        }
         let (signed, c) = split_cfg(cfg);
         let f: Option<fn(bool, &str, &[&str]) -> Option<String>> = for_config!(c, imp);
         f.and_then(|f| f(signed, op, args))
